@@ -159,7 +159,8 @@ DialerVerdict(c) ==
 -----------------------------------------------------------------------------
 (* E. protobuf decoders: the plan.                                           *)
 PbDecoders == {"kademlia", "bitswap", "identify", "noise_payload", "public_key", "peer_id", "multiaddr",
-               "mss_message", "bitswap_prefix", "cid"}
+               "mss_message", "bitswap_prefix", "cid", "mss_listener", "mss_dialer", "length_delimited",
+               "payload_size", "substream"}
 PbOps == {"valid", "truncate", "len-extreme", "len-nonminimal", "wire-type", "dup-field", "drop-field",
           "splice", "flip", "noise", "amplify", "leaf", "nested"}
 PbPlan == [dec : PbDecoders, op : PbOps]
